@@ -442,7 +442,10 @@ def run_check(mod, tier, seed, replay=None):
     # ---- both sides (a module may render its cases for the model itself: ENCODE)
     lines, impl_lines = run_impl(mod, cases)
     model_lines = run_model(pid, lines) if os.path.exists(MODEL) else ["model-binary-missing"] * len(lines)
-    mism = [i for i in range(len(lines)) if impl_lines[i] != model_lines[i]]
+    # a module may define MATCH(impl_line, model_line) for cases where the model is
+    # nondeterministic and prints the set of behaviours it allows (refinement check)
+    match = getattr(mod, "MATCH", lambda il, ml: il == ml)
+    mism = [i for i in range(len(lines)) if not match(impl_lines[i], model_lines[i])]
     nk, kbad = kernel_crosscheck(pid, lines, model_lines) if not replay else (0, [])
 
     # ---- oracle on every case
